@@ -47,6 +47,7 @@ structure SslOpt where
   caCertPath : Option Str := none
   serverHostname : Option Str := none
   context : Option Nat := none          -- an `ssl.SSLContext` made by the caller (opaque)
+  legacy : Bool := false                -- `ssl_version` names a protocol constant other than PROTOCOL_TLS_CLIENT
   deriving Repr, DecidableEq, Inhabited
 
 /-- `WEBSOCKET_CLIENT_CA_BUNDLE` and what the file system says about it. -/
